@@ -7,44 +7,44 @@ HERE = os.path.dirname(os.path.abspath(__file__))
 TB = "rustc nightly front end / MIR construction / constant evaluator; the Python analysis in /verif/analysis; the reference models named in DESIGN.md §4"
 
 P = {
- "C01": ("other", "E1 must-facts + E8 intervals and floor-linear forms + provenance over MIR",
-  "Decides for all inputs: latitude outside [-pi/2, pi/2] (incl. NaN) never reaches a normal return of hash/hash_with_dxdy (both build profiles in the thorough tier); the base-cell part of the result is <= 11 for every float input. Decides as necessary conditions: the longitude range reduction keeps the in-quarter offset in [-1,1] and the quarter in [0,3] for up to 8 turns; the cell number is assembled as (base cell << 2*depth) | z-order(i, j). Does NOT decide containment of the position in the cell nor i,j < nside (float rounding).", "§5 C01"),
+ "C01": ("other", "E1 must-facts + E8 intervals and floor-linear forms + finite quarter table (both profiles) + E9 cancellation lint + provenance over MIR",
+  "Decides for all inputs: latitude outside [-pi/2, pi/2] (incl. NaN) never reaches a normal return of hash/hash_with_dxdy (both build profiles in the thorough tier); the base-cell part of the result is <= 11 for every float input. Decides as necessary conditions: the longitude range reduction keeps the in-quarter offset in [-1,1] and the quarter in [0,3] for up to 8 turns; the cell number is assembled as (base cell << 2*depth) | z-order(i, j). Does NOT decide containment of the position in the cell nor i,j < nside (float rounding). Also: the quarter returned by xpm1_and_q equals floor(x/2) mod 4 (mirrored for lon < 0) in 130 folded cases and never panics, in the release and the dev profile; no `1 -/+ trig` cancelling form on the hash path.", "§5 C01"),
  "C02": ("other", "taint (depth-independence) + per-depth constant extraction + provenance of the scaling/truncation/clamp chain",
   "Checks on the code the four premises of the paper proof of the prefix property: (P1) base cell and in-base-cell coordinates come from a function that reads nothing of the layer; (P2) scaling is an exact power of two per depth, added to the exponent bits: time_half_nside = (depth-1)<<52 for all 30 depths; (P3) the scaled float reaches `as u32` with no other float operation; (P4) the clamp compares with nside = 2^depth and substitutes nside-1. The lemma's float side conditions are argued on paper, not checked.", "§5 C02"),
- "C03": ("other", "E1 must-facts with callee inlining + E4 constant extraction per depth + E6 symbolic vertex forms",
-  "Decides for all inputs: a cell number >= n_hash never reaches a normal return of the 9 Layer accessors and 6 free wrappers, with n_hash = 12*4^depth extracted from Layer::new for the 30 depths; sph_coo rejects offsets outside [0,1); the four vertices returned by vertices() and by vertex()/vertices_map() are the same projection-plane points (S,E,N,W offsets). Round trips through hash are float numerics and are not decided.", "§5 C03"),
+ "C03": ("other", "E1 must-facts with callee inlining + E4 constant extraction per depth + E6 symbolic vertex forms and rotate-scale identity + E9",
+  "Decides for all inputs: a cell number >= n_hash never reaches a normal return of the 9 Layer accessors and 6 free wrappers, with n_hash = 12*4^depth extracted from Layer::new for the 30 depths; sph_coo rejects offsets outside [0,1); the four vertices returned by vertices() and by vertex()/vertices_map() are the same projection-plane points (S,E,N,W offsets). Round trips through hash are float numerics and are not decided. Also: shift_rotate_scale is ((x+y+1), (y+9-x)) * 2^(depth-1) for the 30 depths incl. depth 0; no cancelling form on the accessor / hash paths.", "§5 C03"),
  "C04": ("other", "E4 per-key table extraction (SCCP) compared with an independent vertex-sharing topology model + E1 guards + provenance of the glue",
   "Decides for all cells and depths (unbounded inputs stay symbolic): out-of-range cell numbers are rejected by neighbours/neighbour; the MainWind direction algebra; every entry of the three seam tables (12 base cells x 9 directions) equals the neighbour derived from the HEALPix vertex topology at nside 2, 4, 8 (which pins the symbolic form, hence every depth); the base-cell tables in lib.rs agree; the glue passes (i+di, j+dj) and the base-cell direction in the right slots. What remains informal is the composition of these verified pieces along neighbours()'s top-level control flow.", "§5 C04"),
- "C05": ("other", "control dependence + provenance over MIR (necessary conditions only)",
-  "Necessary conditions of the no-miss claim, decided on the code: a cell is discarded only on the failed comparison with the OUTER threshold (radius + cell bound); all four children are visited; the per-depth bound is indexed in step with the depth; the same radius is used everywhere; the custom variant keeps a coarse cell whenever a deeper one maps to it; the outer threshold argument is clamped at pi; every haversine call site passes the cosines of the right latitudes; the depth-0 bound agrees across the sibling helpers. The geometric claim itself (bounds are bounds, haversine rounding) is not decided.", "§5 C05"),
- "C06": ("other", "E1 facts + control dependence + must-pass-through on def-use chains",
-  "Decides: radius >= pi returns exactly push_all(0, 0, 12, true); 'full' is pushed only under the inner threshold; every push is under one of the two thresholds; the 'no full cell' sentinel makes the full test unsatisfiable; the small-cone branch sorts, then de-duplicates, then pushes; every returned BMOC passes through pack, which merges only four full siblings under the exact look-ahead bound. Geometric correctness of the thresholds and pack's fixpoint are not decided.", "§5 C06"),
+ "C05": ("other", "control dependence + provenance over MIR + E9 cancellation lint (necessary conditions only)",
+  "Necessary conditions of the no-miss claim, decided on the code: a cell is discarded only on the failed comparison with the OUTER threshold (radius + cell bound); all four children are visited; the per-depth bound is indexed in step with the depth; the same radius is used everywhere; the custom variant keeps a coarse cell whenever a deeper one maps to it; the outer threshold argument is clamped at pi; every haversine call site passes the cosines of the right latitudes; the depth-0 bound agrees across the sibling helpers. The geometric claim itself (bounds are bounds, haversine rounding) is not decided. Also: no `1 - cos d` / law-of-cosines form in the distance computations of the cone path.", "§5 C05"),
+ "C06": ("other", "E1 facts + control dependence + must-pass-through on def-use chains + E9",
+  "Decides: radius >= pi returns exactly push_all(0, 0, 12, true); 'full' is pushed only under the inner threshold; every push is under one of the two thresholds; the 'no full cell' sentinel makes the full test unsatisfiable; the small-cone branch sorts, then de-duplicates, then pushes; every returned BMOC passes through pack, which merges only four full siblings under the exact look-ahead bound. Geometric correctness of the thresholds and pack's fixpoint are not decided. Also: no cancelling form in the distance computations.", "§5 C06"),
  "C07": ("other", "E4 truth tables at emission sites + must-pass-through on loop back edges (necessary conditions only)",
   "Necessary conditions of the set-algebra claim: or/xor return through pack; full/full flag rules per operator; every cycle of the merge loops advances a cursor; drains follow or/xor. Equality with the set operation for all pairs of trees is not decided.", "§5 C07"),
  "C08": ("other", "E4 truth tables of the emitted flag at every emission site (site-level necessary conditions)",
   "The flag emitted at each push site of not/and/or/xor as a function of the input flags equals the documented three-valued rule for that site. That the sites compose to the documented map on whole BMOCs is not decided.", "§5 C08"),
- "C09": ("other", "E5 GF(2) bit-vector proofs of the cell codec for all depth pairs + E3 ordered-emission shape + who-may-construct",
-  "Proves for all 465 (depth <= depth_max) pairs and all hash bits: every decoder inverts build_raw_value. Necessary conditions: producers emit in z-order (recursion shape, sorted roots), BMOC values are only constructed by the builder finalisers, views share the proved decoders.", "§5 C09"),
+ "C09": ("other", "E5 GF(2) bit-vector proofs of the cell codec for all depth pairs + E3 ordered-emission shape + who-may-construct + per-path push invariant",
+  "Proves for all 465 (depth <= depth_max) pairs and all hash bits: every decoder inverts build_raw_value. Necessary conditions: producers emit in z-order (recursion shape, sorted roots), BMOC values are only constructed by the builder finalisers, views share the proved decoders. Also: BMOCBuilderFixedDepth::push keeps `sorted == true` equivalent to a strictly increasing buffer on every path.", "§5 C09"),
  "C10": ("other", "E7 lossy int->f64->sqrt->int chain rule + use-def identity of region boundaries",
   "Necessary conditions: on every returning path a float square root used as a ring index is either exact (operand < 2^52 under the facts of that path) or corrected against the integer it came from; no 32-bit product/shift/sum of the ring arithmetic can wrap for depth <= 29; to_ring and from_ring use the same two boundary terms and one triangular-number definition. Decided for all (i, j) per depth and base cell, as polynomial identities: the ring number to_ring assigns is the model's n(2 + b div 4) - (i + j + 2), and the first index of that ring is the number of cells of the rings before it in each of the three regions; the ring layout helpers have their closed forms in nside. The position inside the ring, from_ring's inverse arithmetic and hence bijectivity are not decided.", "§5 C10"),
- "C11": ("other", "E1 must-facts + E7 + closed-form identities",
-  "Decides: out-of-range cell numbers, latitudes and offsets never reach a normal return of the RING accessors; necessary: exact integer square root in center_of_projected_cell; n_hash, first_hash_* and n_isolatitude_rings equal their closed forms as polynomials in nside (4i cells in polar ring i, 4 nside in equatorial rings). Containment / round trip are not decided.", "§5 C11"),
- "C12": ("other", "control dependence + sortedness typestate + provenance (necessary conditions only)",
-  "Necessary conditions: a cell in the vertex-cell list is never discarded; the list is built from every polygon vertex and sorted before binary search; 'full' only under n == 4 vertices inside; roots sorted; every polygon vertex enters the maximum that sizes the bounding cone. Tightness and the point-in-polygon predicate are not decided.", "§5 C12"),
- "C13": ("other", "E1 must-facts + typestate/shape rules",
-  "Decides: a semi-major axis >= pi/2 never reaches a normal return of any of the five entry points (both profiles in thorough), and the ellipse is only constructed under the guard. Necessary: ordered emission, packed result, 'full' only if contains_cone or all four vertices inside. Geometry not decided.", "§5 C13"),
+ "C11": ("other", "E1 must-facts + E7 + E6/E6' identities (polynomials, floor-polynomials by residue classes) + finite box table + E9",
+  "Decides: out-of-range cell numbers, latitudes and offsets never reach a normal return of the RING accessors; necessary: exact integer square root in center_of_projected_cell; n_hash, first_hash_* and n_isolatitude_rings equal their closed forms as polynomials in nside (4i cells in polar ring i, 4 nside in equatorial rings). Containment / round trip are not decided. Also, for every nside incl. odd ones: the layout arithmetic of ring::hash per region (first index of the ring, polar caps mirror each other), the centre of every cell is the centre of the box ring::hash maps to it (both parities of ring and nside), and for nside <= 4 (7 thorough) every box the 1x1-box step can leave, gap boxes and pole rows included, gives the model's cell without panicking in either profile.", "§5 C11"),
+ "C12": ("other", "control dependence + sortedness typestate + provenance + truth table of the longitude-range test + E9 (necessary conditions only)",
+  "Necessary conditions: a cell in the vertex-cell list is never discarded; the list is built from every polygon vertex and sorted before binary search; 'full' only under n == 4 vertices inside; roots sorted; every polygon vertex enters the maximum that sizes the bounding cone. Tightness and the point-in-polygon predicate are not decided. Also: is_in_lon_range is the cyclic half-open arc of the shorter way round at 448 triples incl. ties.", "§5 C12"),
+ "C13": ("other", "E1 must-facts + typestate/shape rules + hemisphere rule + E9",
+  "Decides: a semi-major axis >= pi/2 never reaches a normal return of any of the five entry points (both profiles in thorough), and the ellipse is only constructed under the guard. Necessary: ordered emission, packed result, 'full' only if contains_cone or all four vertices inside. Geometry not decided. Also: contains / contains_cone reach the ellipse test only on the near hemisphere.", "§5 C13"),
  "C14": ("other", "E5 bit-vector proofs per delta_depth + E4 tables vs topology model + E1 domain guard",
   "Proves for every delta_depth 1..=29: corner helpers and side helpers produce hash*4^delta | the spread of the fixed/running coordinate. Decides: facing-direction tables agree with the topology model; the convenience functions accept every depth+delta <= 29. internal_edge_sorted's index arithmetic is not decided.", "§5 C14"),
- "C15": ("other", "E5 bit-vector proofs of lower-depth re-encoding + must-pass-through (necessary conditions only)",
-  "Proves the raw-value re-encoding when lowering depth for all triples; necessary: to_bmoc returns Some after any drain, drains merge with `or`, pack only merges four full siblings. Coverage equality for all push sequences is not decided.", "§5 C15"),
+ "C15": ("other", "E5 bit-vector proofs of lower-depth re-encoding + must-pass-through + per-path push invariant + level bound (necessary conditions only)",
+  "Proves the raw-value re-encoding when lowering depth for all triples; necessary: to_bmoc returns Some after any drain, drains merge with `or`, pack only merges four full siblings. Coverage equality for all push sequences is not decided. Also: the merge level of the fixed-depth builder is bounded by its depth on every path; push keeps `sorted` equivalent to strictly increasing.", "§5 C15"),
  "C16": ("other", "control dependence on the unrolled decision tree + table data check + E1",
   "Decides for all radii: each leaf of best_starting_depth returns the deepest depth whose tabulated limit exceeds r (given the table is strictly decreasing, which is checked on the data), and the refusal matches has_best_starting_depth; necessary: the table follows the 1/nside pattern to second order, the sibling helpers agree on the depth-0 and polar-cap bounds, and with debug assertions on no path pins an input-derived value to a single point. That the table values bound real cell sizes is not decided.", "§5 C16"),
- "C17": ("other", "E1 must-facts + E8 floor-linear forms",
-  "Decides: arguments outside [-pi/2,pi/2] / [-2,2] never reach a normal return of proj/unproj. Necessary: the longitude reduction yields offset in [0,7] and remainder in [-1,1] for up to 8 turns; base_cell_from_proj_coo read as a lookup table equals the topology model on 48 points including the diagonal seams. The formulae and the inverse property are not decided.", "§5 C17"),
+ "C17": ("other", "E1 must-facts + E8 floor-linear forms + finite lookup table vs model + E9",
+  "Decides: arguments outside [-pi/2,pi/2] / [-2,2] never reach a normal return of proj/unproj. Necessary: the longitude reduction yields offset in [0,7] and remainder in [-1,1] for up to 8 turns; base_cell_from_proj_coo read as a lookup table equals the topology model on 48 points including the diagonal seams. The formulae and the inverse property are not decided. Also: the table is read on the outer edges of the polar facets and at the poles (one of the base cells meeting there); the edge clamp is two-sided.", "§5 C17"),
  "C18": ("proof", "E5 GF(2)-affine bit-vector abstract interpretation of every ZOrderCurve impl + E4 dispatch extraction + per-depth symbolic uniq round trip",
   "Every clause of the statement is decided for all inputs: for each implementation in the default, +bmi2 (and cfg(test)) builds the derived bit-vector of i02h/oj2h/ij2h/ij2i∘h2ij/ij2j∘h2ij equals the interleave specification on the coordinate width the dispatcher uses it for; get_zoc's selection is extracted for the 30 depths and rejects depth > 29; uniq and IVOA uniq round trips hold per depth with the hash symbolic.", "§5 C18"),
- "C19": ("proof", "E6 polynomial identities over (dx, dy) per arm + E4 arm extraction",
-  "For each of the 8 arms the weights are extracted as polynomials in (dx, dy): their sum is identically 1, each is non-negative on the arm's box, the barycentre identities hold with the verified direction offsets, the missing corner carries weight 0.", "§5 C19"),
+ "C19": ("proof", "E6 polynomial identities over (dx, dy) per arm + E4 arm extraction + rotate-scale identity + E9",
+  "For each of the 8 arms the weights are extracted as polynomials in (dx, dy): their sum is identically 1, each is non-negative on the arm's box, the barycentre identities hold with the verified direction offsets, the missing corner carries weight 0. Also: shift_rotate_scale scales by nside/2 at every depth incl. 0; no cancelling form.", "§5 C19"),
  "C20": ("proof", "typestate + must-facts (dominance) analysis of every access to the crate's `static mut` items under std::sync::Once",
   "Every access to LAYERS / CSTS_C2V in the crate is either the single write inside the closure given to call_once on the paired Once slot with the same index, or a read at a point where call_once on that slot has returned on every path; the constructors have one call site; the pointer to the static never escapes; the shared types have no interior mutability and no &mut self method. With Once's contract this is the property for every interleaving.", "§5 C20"),
 }
